@@ -131,6 +131,11 @@ func script(seed int64, idx int) {
 			s.Emit(s.Core, b, tx, 0, alphsim.FieldsOf(in), in, class+":"+s.Tokens[fmt.Sprintf("%x", in.Payload[1:33])].Mode)
 			hostile = append(hostile, class+":"+s.Tokens[fmt.Sprintf("%x", in.Payload[1:33])].Mode)
 			return
+		case "foreign-empty-payload":
+			// anybody can publish through the core contract: a message with an empty payload from a stranger
+			in := wIntent(w, "foreign-sender", uint8(lrng.Intn(3)))
+			in.Payload = []byte{}
+			s.Emit(s.Core, b, tx, 0, alphsim.FieldsOf(in), in, class)
 		case "foreign-attest-short":
 			in := wIntent(w, "attest", 0)
 			lrng.Read(in.Sender[:])
@@ -144,7 +149,7 @@ func script(seed int64, idx int) {
 		}
 		hostile = append(hostile, class)
 	}
-	classes := []string{"good-transfer", "good-transfer", "good-attest", "good-boundary", "good-two-in-one-tx", "foreign-sender", "foreign-attest-bad-token", "foreign-attest-short", "malformed", "malformed"}
+	classes := []string{"good-transfer", "good-transfer", "good-attest", "good-boundary", "good-two-in-one-tx", "foreign-empty-payload", "foreign-sender", "foreign-attest-bad-token", "foreign-attest-short", "malformed", "malformed"}
 	// stepLiveness: every expected message that is already confirmable (block height + consistency level <=
 	// current height) must have been forwarded once the watcher is quiescent; re-checked after further
 	// quiescent periods before it is reported.
@@ -248,6 +253,43 @@ func script(seed int64, idx int) {
 				break
 			}
 			stepLiveness("after-time-floor")
+			continue
+		}
+		if rng.Intn(7) == 0 {
+			// a reorg orphans the block of a message that is still waiting for its confirmations, and the same transaction is
+			// mined again on the new main chain: the copy in the orphaned block must never come out, the re-mined one must
+			cl := uint8(2 + lrng.Intn(3))
+			var old *alphsim.Block
+			var e1 *alphsim.Ev
+			var txid string
+			w.Sim.Mutate("emit-pending", func(s *alphsim.Sim) {
+				old = w.NewBlock(s, false)
+				txid = fmt.Sprintf("%064x", lrng.Uint64())
+				in := wIntent(w, "transfer", cl)
+				e1 = s.Emit(s.Core, old, txid, 0, alphsim.FieldsOf(in), in, "good-transfer(later orphaned)")
+				s.TxBlock[txid] = old.Hash
+			})
+			w.Tr(fmt.Sprintf("emit a transfer (consistency %d) in block %s; it stays pending", cl, old.Hash[:8]))
+			if !w.H.WaitRounds(3, 30*time.Second) {
+				break
+			}
+			w.Sim.Mutate("reorg-remine-pending", func(s *alphsim.Sim) {
+				s.SetMain(old.Hash, false)
+				nb := s.AddBlock(fmt.Sprintf("%064x", lrng.Uint64()), old.Height, old.TsMs+7, true)
+				e2 := s.Emit(s.Core, nb, txid, 0, e1.Fields, e1.Intent, "good-transfer(re-mined after the reorg)")
+				s.TxBlock[txid] = nb.Hash
+				expected = append(expected, e2)
+			})
+			w.Tr("reorg: that block is orphaned and the transaction is mined again in the new main-chain block of the same height")
+			vlib.CCount("pending_message_remined_after_reorg", 1)
+			if !w.H.WaitRounds(3, 30*time.Second) {
+				break
+			}
+			w.Sim.Mutate("advance", func(s *alphsim.Sim) { s.SetHeight(s.Height + int32(cl) + 2) })
+			if !w.H.WaitRounds(4, 30*time.Second) {
+				break
+			}
+			stepLiveness("re-mined-after-reorg")
 			continue
 		}
 		if rng.Intn(6) == 0 {
